@@ -96,3 +96,21 @@ Section Spawn.
 
   Definition run (ops : list op) : cst C * out := fold_left step ops (cinit C, out0).
 End Spawn.
+
+(** -- SpawnBase._write_all: the descriptor may take only part of what it is given (it is non-blocking once asyncio reads
+    from it) or nothing at all for the moment; the loop goes on until everything has been written.  [accepts]: what the
+    successive os.write calls accept (None = BlockingIOError, then the loop waits for writability); result: the pieces that
+    reached the descriptor, and what was still unwritten when the schedule ended *)
+Fixpoint write_all (accepts : list (option nat)) (b : text) : list text * text :=
+  match accepts with
+  | [] => ([], b)
+  | a :: r =>
+      let k := match a with Some k => Nat.min k (length b) | None => 0%nat end in
+      let piece := firstn k b in
+      let rest := skipn k b in
+      match rest with
+      | [] => (match a with Some _ => [piece] | None => [] end, [])
+      | _ => let '(ps, lft) := write_all r rest in
+             ((match a with Some _ => [piece] | None => [] end) ++ ps, lft)
+      end
+  end.
